@@ -1108,7 +1108,7 @@ def relational_molecules(ctx):
     rng = ctx.rng
     out = []
     for s in molgen.HANDMADE + SYMMETRIC + STEREO_PAIRS + ISOTOPES + EXPLICIT_H_STEREO + ez_catalogue() + OLIGOMERS \
-            + RING_JUNCTION_STEREO + oligomers(rng, 50 if ctx.quick else 400):
+            + RING_JUNCTION_STEREO + oligomers(rng, 50 if ctx.quick else 250):
         m = molgen.parse(s)
         if m is not None:
             out.append((s, s, m))
@@ -1118,7 +1118,7 @@ def relational_molecules(ctx):
         for tag, c in isotope_decorations(molgen.parse(t), limit=2 if ctx.quick else 4):
             out.append((f'{t}{tag}', None, c))
     smis = molgen.corpus_smiles()
-    for i in rng.sample(range(len(smis)), 500 if ctx.quick else 2500):
+    for i in rng.sample(range(len(smis)), 500 if ctx.quick else 1700):
         m = molgen.parse(smis[i])
         if m is not None:
             out.append((f'corpus[{i}]', smis[i], m))
@@ -1129,7 +1129,7 @@ def relational_molecules(ctx):
                 out.append((f'small{g}', None, molgen.decorate(rng, list(g))))
             except Exception:  # noqa
                 continue
-    for i in range(150 if ctx.quick else 600):
+    for i in range(150 if ctx.quick else 400):
         e = molgen.ring_assembly(rng, max_rings=3)
         try:
             out.append((f'rings#{i}', None, molgen.decorate(rng, e, hetero=0.2, multiple=0.1, charge=0.03)))
